@@ -186,6 +186,10 @@ def pair_part(ck):
 
 def main():
     ck = core.Check("C13", "model_checking")
+    if ck.args.replay:
+        from vlib import sysrun as _sr
+
+        _sr.replay(ck, "C13", ck.args.replay)
     core.import_repo()
     cov = dispatch_part(ck)
     mc = sysrun.model_part(ck, "C13", variants=["lostcalls"], tier=ck.tier)
